@@ -12,7 +12,7 @@ from common import s2t, t2s
 
 OPS = {
     "is_space_range": {}, "words": {}, "rstrip": {}, "divide_line": {}, "divide": {}, "split": {},
-    "expand_tabs": {}, "truncate": {}, "rstrip_end": {}, "wrap": {}, "wrap_raw": {},
+    "expand_tabs": {}, "truncate": {}, "rstrip_end": {}, "wrap": {}, "wrap_raw": {}, "wrap_seq": {},
 }
 
 # the variant of the model the implementation is compared with: [fix_order, fix_pad]
@@ -141,6 +141,19 @@ def generate(rng, tier):
         ts = rng.choice([8, 8, 4, 2, 1, 3])
         nw = 1 if rng.random() < 0.15 else 0
         cases.append(("wrap" if i % 4 else "wrap_raw", [t, w, j, ov, ts, nw]))
+    # the SAME Text object wrapped two or three times: wrap must not mutate its receiver (aliasing)
+    for i in range(700 * k):
+        t = rtext(rng, maxwords=rng.choice([4, 8]), maxword=rng.choice([6, 12]))
+        if not t[1] or rng.random() < 0.7:
+            t[1] = t[1] + rspans(rng, len(t[0])) + [[0, max(1, len(t[0]) // 2), [rng.randint(1, 4)]]]
+        cfgs = []
+        for _ in range(rng.choice([2, 2, 3])):
+            if cfgs and rng.random() < 0.35:
+                cfgs.append(list(cfgs[-1]))           # the same call again
+                continue
+            cfgs.append([rwidth(rng, t[0]), rng.choice([2, 3, 2, 3, 0, 1, 4]), rng.choice([0, 0, 1, 2, 3]),
+                         rng.choice([8, 4, 2]), 1 if rng.random() < 0.15 else 0])
+        cases.append(("wrap_seq", [t, cfgs]))
     return cases
 
 
@@ -182,6 +195,8 @@ def dom(op, arg):
         if op in ("wrap", "wrap_raw"):
             t, w, j, ov, ts, nw = arg
             return [_dt(t), max(2, w), j % 5, ov % 4, max(1, ts), nw]
+        if op == "wrap_seq":
+            return [_dt(arg[0]), [[max(2, w), j % 5, ov % 4, max(1, ts), nw] for w, j, ov, ts, nw in arg[1]]]
     except Exception:
         pass
     return arg
@@ -309,12 +324,19 @@ def impl(op, arg):
         lines = mk_text(t).wrap(FakeConsole(), w, justify=JUSTIFY[j], overflow=OVERFLOW[ov], tab_size=ts,
                                 no_wrap=bool(nw))
         return [raw(l) if op == "wrap_raw" else styled_line(l) for l in lines]
+    if op == "wrap_seq":
+        text = mk_text(arg[0])
+        out = []
+        for w, j, ov, ts, nw in arg[1]:
+            lines = text.wrap(FakeConsole(), w, justify=JUSTIFY[j], overflow=OVERFLOW[ov], tab_size=ts, no_wrap=bool(nw))
+            out.append([[styled_line(l) for l in lines], raw(text)])
+        return out
     raise KeyError(op)
 
 
 def model_case(op, arg):
     arg = dom(op, arg)
-    if op in ("wrap", "wrap_raw"):
+    if op in ("wrap", "wrap_raw", "wrap_seq"):
         return op, FIX + arg
     if op in ("divide", "split", "expand_tabs"):
         return op, [FIX[0]] + arg
@@ -337,6 +359,13 @@ def spec_cases(op, arg, out):
     if isinstance(out, dict):
         return []
     arg = dom(op, arg)
+    if op == "wrap_seq":
+        t, cfgs = arg
+        specs = []
+        for (w, j, ov, ts, nw), (lines, after) in zip(cfgs, out):
+            specs += spec_cases("wrap", [t, w, j, ov, ts, nw], lines)     # every wrap, against the ORIGINAL text
+            specs.append(("spec.receiver_unchanged", [t, after]))
+        return specs
     if op in ("wrap", "wrap_raw"):
         t, w, j, ov, ts, nw = arg
         lines = out if op == "wrap" else [_styled_from_raw(l) for l in out]
@@ -367,6 +396,11 @@ def describe(op, arg):
             t, w, j, ov, ts, nw = arg
             return (f"Text({t2s(t[0])!r}, style={t[2]}, spans={t[1]}).wrap(width={w}, justify={JUSTIFY[j]}, "
                     f"overflow={OVERFLOW[ov]}, tab_size={ts}, no_wrap={bool(nw)})")
+        if op == "wrap_seq":
+            t, cfgs = arg
+            return (f"x = Text({t2s(t[0])!r}, style={t[2]}, spans={t[1]}); " + "; ".join(
+                f"x.wrap(width={w}, justify={JUSTIFY[j]}, overflow={OVERFLOW[ov]}, tab_size={ts}, no_wrap={bool(nw)})"
+                for w, j, ov, ts, nw in cfgs))
         if op == "divide_line":
             return f"divide_line({t2s(arg[0])!r}, {arg[1]}, fold={bool(arg[2])})"
         if op == "divide":
